@@ -199,7 +199,8 @@ contract("CuckooFilter.export", contexts=["CuckooFilter"], properties=["C05", "C
          ensures=[("appends_every_bucket_and_the_footer",
                    f"len(written(file)) == {_CKB} + 4 * smul(self._cuckoo_capacity, self._bucket_size) + 8"),
                   ("earlier_bytes_kept", f"all(written(file)[i] == old(written(file))[i] for i in range(0, {_CKB}))"),
-                  ("documented_layout", f"ck_image(self, written(file), {_CKB})")],
+                  ("documented_layout_buckets", f"ck_cells(self, written(file), {_CKB})"),
+                  ("documented_layout_footer", f"ck_foot(self, written(file), {_CKB})")],
          loops={0: {"invariant": [
              ("length", f"len(written(file)) == {_CKB} + 4 * smul(_i, self._bucket_size)"),
              ("earlier_bytes_kept", f"all(written(file)[i] == old(written(file))[i] for i in range(0, {_CKB}))"),
